@@ -3,16 +3,21 @@ Driver.Sevm — runs the Model.Sevm exploration core on a program (one reply per
 
   run <codehex> <nargs> <loop> <depth> <fuel> <oracle>
       nargs  : number of symbolic 32-byte calldata words a0.. after a 4-byte concrete selector 12345678
-      oracle : unknown | sat      (what the solver behind Path.check answers to every query; both are OracleSound)
+      oracle : unknown | sat      (what the solver behind Path.check answers to every query; both are OracleSound);
+               a trailing `+static` runs the frame with is_static set
    -> ends=<kind@pc,…|-> bounded=<n> depthcut=<0|1> fuelout=<0|1>
   eval <codehex> <nargs> <loop> <depth> <fuel> <oracle> <a0,a1,…> <caller> <origin> <value>     (hex values)
-   -> sat=<kind@pc:datahex,…|->   the end states whose path the inputs satisfy, with their data evaluated
+   -> sat=<kind@pc:datahex:storage,…|->   the end states whose path the inputs satisfy, with their data evaluated and
+      their non-zero storage `s<slot>=<value>;` / transient storage `t<slot>=<value>;` (hex, by slot)
+  code <addrhex> <codehex>  -> ok     registers the code of another account (message-call targets) for what follows
+  nocode                    -> ok     forgets them
+  (the program under test runs at address 0x1000; calls follow Model.SevmCalls)
   steps <codehex> <nargs> <loop> <fuel> <oracle>
    -> steps=<n>   iterations of the worklist loop of the whole run without a --depth limit (0: fuel exhausted)
       kind: success revert invalidOpcode invalidJump stackUnderflow … | stuck:<reason> ; a trailing `!` marks the
       tagged (knowingly unfaithful) jumpi-invalid-destination site
 -/
-import HalmosVerif.Model.Sevm
+import HalmosVerif.Model.SevmCalls
 import HalmosVerif.Model.SimpFold
 open HalmosVerif.Model HalmosVerif.Model.Sevm HalmosVerif.Spec
 
@@ -56,7 +61,7 @@ def cdWord (nargs off : Nat) : T :=
     | [] => .lit 256 0
     | b :: rest => rest.foldl (fun acc x => .concat acc x) b
 
-def mkEnv (nargs : Nat) : Env where
+def mkEnv (nargs : Nat) (isStatic : Bool := false) : Env where
   caller := .var "msg_sender" 160
   origin := .var "tx_origin" 160
   callvalue := .var "msg_value" 256
@@ -64,12 +69,32 @@ def mkEnv (nargs : Nat) : Env where
   cd := cdWord nargs
   cdByte := cdByte nargs
   cdSize := 4 + 32 * nargs
+  isStatic := isStatic
+
+/-- the big-endian bytes of one 256-bit term, as `concatBytes` of 32 `extract`s lays them out:
+    `concat(…concat(extract(255,248,t), extract(247,240,t))…, extract(7,0,t))` — z3 rewrites it back to `t` -/
+def collapseBytes (x : T) : T :=
+  let rec go : T → Nat → Option T      -- the term read as bytes k, k-1, …, 0 (from the top) of some `t`
+    | .extract hi lo t, k => if hi = 8 * k + 7 ∧ lo = 8 * k then some t else none
+    | .concat a (.extract hi lo t), k =>
+      if hi = 8 * k + 7 ∧ lo = 8 * k then
+        match go a (k + 1) with
+        | some t' => if t' == t then some t else none
+        | none => none
+      else none
+    | _, _ => none
+  match x with
+  | .concat a b =>
+    match go (.concat a b) 0 with
+    | some t => if t.width = 256 ∧ x.width = 256 then t else x
+    | none => x
+  | _ => x
 
 /-- the driver's stand-in for z3's `simplify`: constant folding of closed terms plus elimination of a double negation
     at the top (`simplify(Not(Not(c))) = c`, which `jumpi`'s `cond_false = simplify(Not(cond_true))` relies on when the
-    same condition is met again on a path) -/
+    same condition is met again on a path), and the re-assembly of a word from its 32 bytes -/
 def drvSimp : Simp where
-  t := foldSimp.t
+  t := fun t => collapseBytes (foldSimp.t t)
   b := fun b =>
     match foldSimp.b b with
     | .not (.not c) => c
@@ -90,14 +115,17 @@ def outName (e : EndState) : String :=
   let t := if e.tag = .jumpiInvalidSym then "!" else ""
   s!"{k}{t}@{e.st.pc}"
 
-def handle (line : String) : String :=
+def MAIN : Nat := 0x1000
+
+def handle (codes : List (Nat × List Nat)) (line : String) : String :=
   match line.trimAscii.toString.splitOn " " with
   | ["run", code, nargs, loop, depth, fuel, orc] =>
     match hexBytes? code, nargs.toNat?, loop.toNat?, depth.toNat?, fuel.toNat? with
     | some code, some nargs, some loop, some depth, some fuel =>
-      let o : Oracle := fun _ _ => if orc = "sat" then .sat else .unknown
-      let res := run drvSimp o { loop, depth } (mkEnv nargs) code fuel
-      let ends := (res.ends.map outName).toArray.qsort (· < ·) |>.toList
+      let o : Oracle := fun _ _ => if orc.startsWith "sat" then .sat else .unknown
+      let static := orc.endsWith "+static"
+      let res := runC drvSimp o { loop, depth } (mkEnv nargs static) ((MAIN, code) :: codes) MAIN fuel
+      let ends := (res.ends.map fun e => outName e.e).toArray.qsort (· < ·) |>.toList
       let e := if ends.isEmpty then "-" else ",".intercalate ends
       s!"ends={e} bounded={res.boundedLoops.length} depthcut={if res.depthCut then 1 else 0} fuelout={if res.outOfFuel then 1 else 0}"
     | _, _, _, _, _ => "bad-op"
@@ -106,8 +134,9 @@ def handle (line : String) : String :=
     match hexBytes? code, nargs.toNat?, loop.toNat?, depth.toNat?, fuel.toNat?,
           (argv.splitOn ",").mapM hexVal?, hexVal? caller, hexVal? origin, hexVal? value with
     | some code, some nargs, some loop, some depth, some fuel, some args, some caller, some origin, some value =>
-      let o : Oracle := fun _ _ => if orc = "sat" then .sat else .unknown
-      let res := run drvSimp o { loop, depth } (mkEnv nargs) code fuel
+      let o : Oracle := fun _ _ => if orc.startsWith "sat" then .sat else .unknown
+      let static := orc.endsWith "+static"
+      let res := runC drvSimp o { loop, depth } (mkEnv nargs static) ((MAIN, code) :: codes) MAIN fuel
       let bvVal (x : String) (_ : Nat) : Nat :=
         if x = "msg_sender" then caller else if x = "tx_origin" then origin else if x = "msg_value" then value
         else if x.startsWith "a" then args.getD ((x.drop 1).toNat?.getD 0) 0 else 0
@@ -115,8 +144,20 @@ def handle (line : String) : String :=
       let hex2 (n : Nat) : String :=
         let d (k : Nat) : Char := if k < 10 then Char.ofNat (48 + k) else Char.ofNat (87 + k)
         String.ofList [d (n / 16 % 16), d (n % 16)]
-      let sat := res.ends.filter fun e => e.st.path.all fun c => c.eval I
-      let names := (sat.map fun e => s!"{outName e}:{String.join (e.data.map fun b => hex2 (b.eval I))}").toArray.qsort (· < ·) |>.toList
+      let sat := res.ends.filter fun e => e.e.st.path.all fun c => c.eval I
+      -- storage maps evaluated: per account (by address), the newest binding of each slot, zero values dropped
+      let hexN (n : Nat) : String := String.ofList (Nat.toDigits 16 n)
+      let stoStr (pre : String) (σ : List (Nat × T)) : String :=
+        let slots := (σ.map (·.1)).eraseDups.toArray.qsort (· < ·) |>.toList
+        String.join ((slots.filterMap fun k =>
+          let v := (stoGet σ k).eval I
+          if v = 0 then none else some s!"{pre}{hexN k}={hexN v};"))
+      let allSto (ss : Stores) : String :=
+        let addrs := (ss.map (·.1)).eraseDups.toArray.qsort (· < ·) |>.toList
+        String.join (addrs.map fun a =>
+          stoStr s!"{hexN a}.s" (stoOf ss a).storage ++ stoStr s!"{hexN a}.t" (stoOf ss a).transient)
+      let names := (sat.map fun e =>
+        s!"{outName e.e}:{String.join (e.e.data.map fun b => hex2 (b.eval I))}:{allSto e.stores}").toArray.qsort (· < ·) |>.toList
       s!"sat={if names.isEmpty then "-" else ",".intercalate names}"
     | _, _, _, _, _, _, _, _, _ => "bad-op"
   | ["steps", code, nargs, loop, fuel, orc] =>
@@ -124,10 +165,12 @@ def handle (line : String) : String :=
     -- `--depth` under which nothing is cut, found by doubling and bisection
     match hexBytes? code, nargs.toNat?, loop.toNat?, fuel.toNat? with
     | some code, some nargs, some loop, some fuel =>
-      let o : Oracle := fun _ _ => if orc = "sat" then .sat else .unknown
-      let res0 := run drvSimp o { loop, depth := 0 } (mkEnv nargs) code fuel
+      let o : Oracle := fun _ _ => if orc.startsWith "sat" then .sat else .unknown
+      let static := orc.endsWith "+static"
+      let cs := (MAIN, code) :: codes
+      let res0 := runC drvSimp o { loop, depth := 0 } (mkEnv nargs static) cs MAIN fuel
       if res0.outOfFuel then "steps=0" else
-      let cut (d : Nat) : Bool := (run drvSimp o { loop, depth := d } (mkEnv nargs) code fuel).depthCut
+      let cut (d : Nat) : Bool := (runC drvSimp o { loop, depth := d } (mkEnv nargs static) cs MAIN fuel).depthCut
       let rec up (d : Nat) : Nat → Nat
         | 0 => d
         | k + 1 => if cut d then up (2 * d) k else d
@@ -141,10 +184,19 @@ def handle (line : String) : String :=
     | _, _, _, _ => "bad-op"
   | _ => "bad-op"
 
-partial def loop (h : IO.FS.Stream) : IO Unit := do
+/-- `code <addrhex> <codehex>` registers the code of another account for the following requests (reply `ok`);
+    `nocode` forgets all registered codes -/
+partial def loop (h : IO.FS.Stream) (codes : List (Nat × List Nat)) : IO Unit := do
   let line ← h.getLine
   if line.isEmpty then return ()
-  IO.println (handle line)
-  loop h
+  match line.trimAscii.toString.splitOn " " with
+  | ["code", addr, code] =>
+    match hexVal? addr, hexBytes? code with
+    | some a, some c => IO.println "ok"; loop h ((a, c) :: codes.filter (fun p => p.1 != a))
+    | _, _ => IO.println "bad-op"; loop h codes
+  | ["nocode"] => IO.println "ok"; loop h []
+  | _ =>
+    IO.println (handle codes line)
+    loop h codes
 
-def main : IO Unit := do loop (← IO.getStdin)
+def main : IO Unit := do loop (← IO.getStdin) []
